@@ -10,7 +10,8 @@ from ..impl_dwt import T, N as NP
 PROP = 'C11'
 MODULE = 'WaveletsVerif.Properties.C11'
 THEOREMS = ['WV.C11.interleave4_get', 'WV.C11.colifilt1_raises_iff', 'WV.C11.invJ2_absent_high', 'WV.C11.DTCWTInverse_all_absent', 'WV.C11.colifilt1_eq_ref', 'WV.C11.branch_get',
-            'WV.C03T.reflect_eq_symIdx', 'WV.C03T.symm_pad_1d_eq', 'WV.C03T.symmPad_eq_gather']
+            'WV.C03T.reflect_eq_symIdx', 'WV.C03T.symm_pad_1d_eq', 'WV.C03T.symmPad_eq_gather',
+            'WV.C11P.invJ1_eq_ref', 'WV.C11P.invJ2_eq_ref', 'WV.C11P.crop_rect', 'WV.C11P.go_eq_ref', 'WV.C11P.dtcwt_inverse_eq_ref']
 OPS = ['colifilt', 'rowifilt', 'c2q', 'inv_j1', 'inv_j2plus', 'DTCWTInverse']
 KF_MID = 'C11-absent-level-after-extension'
 
@@ -142,9 +143,28 @@ def spec_check(ck):
         x = gen.int_tensor(rng, (r,))
         lines.append(proto.to_line('Q', 'spec_colifilt', [hp], [ha, hb, x]))
         exp.append(Rf.colifilt(np.stack([x, x[::-1]], axis=1), ha, hb)[:, 0])      # two columns: the reference mishandles (r,1) inputs
+    # the whole reference inverse Spec.refInverse <-> dtcwt.Transform2d.inverse on arbitrary forward-compatible pyramids
+    n1 = len(lines)
+    for it in range(24 if ck.tier == 'quick' else 240):
+        if it % 3 == 0:
+            b = rng.choice(OD.BIORTS); s_ = rng.choice(OD.QSHIFTS)
+            bt, qt = OD.lib_tables(b, s_); kind = 'F'
+        else:
+            bt = OD.int_biort(rng, gen); qt = OD.int_qshift(rng, gen); kind = 'Q'
+        J = rng.randint(1, 4)
+        (lh_, lw_), hsz = pyramid_shapes(rng.randint(2, 26), rng.randint(2, 26), J)
+        if kind == 'F':
+            low = gen.float_tensor(ck.nprng, (lh_, lw_)); highs = [gen.float_tensor(ck.nprng, (6, a, b_, 2)) for a, b_ in hsz]
+        else:
+            low = gen.int_tensor(rng, (lh_, lw_), 3); highs = [gen.int_tensor(rng, (6, a, b_, 2), 3) for a, b_ in hsz]
+        h0o, g0o, h1o, g1o = [np.ravel(v) for v in bt]
+        h0a, h0b, g0a, g0b, h1a, h1b, g1a, g1b = [np.ravel(v) for v in qt]
+        ref = OD.inverse(low, [OD.from_canon(h) for h in highs], bt, qt)
+        lines.append(proto.to_line(kind, 'spec_inverse', [], [g0o, g1o, g0a, g0b, g1a, g1b, low] + highs))
+        exp.append(ref)
     outs = proto.run_driver(lines)
-    bad = [ln[:200] for ln, o, e in zip(lines, outs, exp) if o == 'raise' or not proto.equal_exact('Q', e, o[0])[0]]
-    ck.extra['spec_vs_reference'] = {'evaluations': len(lines), 'mismatches': len(bad)}
+    bad = [ln[:200] for ln, o, e in zip(lines, outs, exp) if o == 'raise' or not proto.equal_exact(ln[0], e, o[0])[0]]
+    ck.extra['spec_vs_reference'] = {'evaluations': len(lines), 'pyramids': len(lines) - n1, 'mismatches': len(bad)}
     if bad:
         raise RuntimeError('Lean reference formula of colifilt disagrees with the numpy dtcwt package (machinery error, not a verdict): ' + bad[0])
 
